@@ -463,6 +463,11 @@ PLANS = [
     dict(name="binding_alone", blocks=[(["impl2"], "m"), (["impl3"], "n.o")]),
     dict(name="nested", blocks=[(["enum1", "struct2"], "a.b")], nested={"a.b": (["enum1"], "c")}),
     dict(name="depth3", blocks=[(["enum1", "struct2", "impl2", "struct3"], "a.b.c")]),
+    # module files that begin with comments / blank lines before their version line (the grammar ignores both anywhere)
+    dict(name="comment_header", blocks=[(["enum1", "struct2", "impl2"], "m"), (["svc"], "x.y")],
+         header="// front axle sensors\n/* kept by hand,\n   do not regenerate */\n\n"),
+    dict(name="comment_header_nested", blocks=[(["enum1", "struct2"], "a.b")], nested={"a.b": (["enum1"], "c")},
+         header="\n\n// header\n"),
     # hierarchical layouts: a module file next to a directory of the same name (a.fcp and a/...)
     dict(name="tree", blocks=[(["enum1", "struct2"], "a")], nested={"a": (["enum1"], "a.c")}),
     dict(name="file_and_directory_same_name", blocks=[(["enum1"], "a"), (["svc"], "a.b"), (["dev"], "a.b.c")]),
@@ -517,10 +522,10 @@ def build_split(plan):
                     ndone = True
                     body += f"mod {nested[1]};\n"
                     npath = str(pathlib.PurePosixPath(path).parent / (nested[1].replace(".", "/") + ".fcp"))
-                    files[npath] = V3 + "".join(SINGLE[x] for x in nested[0])
+                    files[npath] = plan.get("header", "") + V3 + "".join(SINGLE[x] for x in nested[0])
                 continue
             body += SINGLE[k]
-        files[path] = body
+        files[path] = plan.get("header", "") + body
     return files, single
 
 
